@@ -26,6 +26,7 @@ inductive PyErr
   | runtimeError     -- StopIteration escaping a generator (PEP 479)
   | stopIteration    -- StopIteration escaping a plain call
   | attributeError
+  | overflowError    -- int too large for a C ssize_t (read(n) with n ≥ 2^63)
   | outOfModel       -- the model declines to predict (counted, never a pass)
 deriving DecidableEq, Repr, Inhabited
 
@@ -42,6 +43,7 @@ def PyErr.name : PyErr → String
   | .runtimeError => "RuntimeError"
   | .stopIteration => "StopIteration"
   | .attributeError => "AttributeError"
+  | .overflowError => "OverflowError"
   | .outOfModel => "OutOfModel"
 
 /-- API-level terms. `unsupported` stands for any object the term encoder has no case for
